@@ -28,6 +28,8 @@ import (
 // (3) black box: NewUpstream(addr, Opt{Socks5: harness}) - the SOCKS5 CONNECT
 //     request shows the host and port really dialled, a TLS ClientHello shows
 //     the server name; plain UDP goes to loopback listeners.
+// (4) c18boot.go: several upstreams in one process on host names resolved
+//     through Opt.Bootstrap, each must reach its own name's address and port.
 
 func init() { props["C18"] = runC18 }
 
@@ -480,5 +482,7 @@ func runC18(r *Run) {
 		}
 		pc.Close()
 	}
-	r.Finish("address grammar {scheme} x {IPv4, [IPv6], bare IPv6, hostname} x {no port, 1..65535, >65535} x {no dial_addr, IP, IP:port, [IPv6]:port, bare IPv6} x {path}; helper functions on every component string plus hand-picked malformed strings plus random strings over `[]:.a1%/ `; black box via a SOCKS5 observer (CONNECT target, TLS ClientHello SNI) and loopback UDP; non-trivial = input contains a bracket or colon / every black-box case")
+	// ---------- (4) several upstreams in one process whose host name is resolved through a bootstrap server
+	runC18Boot(r)
+	r.Finish("address grammar {scheme} x {IPv4, [IPv6], bare IPv6, hostname} x {no port, 1..65535, >65535} x {no dial_addr, IP, IP:port, [IPv6]:port, bare IPv6} x {path}; helper functions on every component string plus hand-picked malformed strings plus random strings over `[]:.a1%/ `; black box via a SOCKS5 observer (CONNECT target, TLS ClientHello SNI) and loopback UDP; groups of 2..4 upstreams created in one process on host names resolved through Opt.Bootstrap (fake bootstrap server, one loopback address per name, TCP and UDP listeners on a shared set of ports; same name with equal and different ports, tls / tls+pipeline / https / quic / h3, port in the URL or in dial_addr name:port, bootstrap version 0/4/6), each connection attributed by ALPN tag or UDP source port and required to reach its own upstream's name and port; non-trivial = input contains a bracket or colon / every black-box case")
 }
